@@ -60,7 +60,8 @@ structure Wg (σ Pkt Net : Type) where
   signer : Pkt → Option Id
 
 /-- The single hypothesis about WireGuard: a `Tunn` created for `peer_static` stays a `Tunn` for that key and
-hands a decrypted payload to the tunnel side only for packets authenticated by that key. -/
+accepts only traffic authenticated by that key – it hands a decrypted payload to the tunnel side (`decrypt`), and,
+when fresh, answers without error (`accept`), only for packets authenticated by that key. -/
 structure Wg.Sound {σ Pkt Net : Type} (w : Wg σ Pkt Net) where
   owns : σ → Id → Prop
   new : ∀ id a, owns (w.new id a) id
@@ -69,6 +70,9 @@ structure Wg.Sound {σ Pkt Net : Type} (w : Wg σ Pkt Net) where
   send : ∀ s id pl, owns s id → owns (w.send s pl).1 id
   tick : ∀ s id, owns s id → owns (w.tick s).1 id
   decrypt : ∀ s id p pl, owns s id → (w.recv s p).2 = .writeToTunnel pl → w.signer p = some id
+  /-- … and a fresh `Tunn` answers anything but an error only to a packet authenticated by that key (Noise IK: the
+  initiation's timestamp is sealed under DH(static, static)) -/
+  accept : ∀ id a p, (∀ e, (w.recv (w.new id a) p).2 ≠ .err e) → w.signer p = some id
 
 /-- `ActiveTunnel` -/
 structure Tunnel (σ : Type) where
@@ -118,6 +122,14 @@ def drain (w : Wg σ Pkt Net) (tunn : σ) (p : Pkt) : σ × List Net × TunnResu
   let (t2, q2) := w.queued t1
   (t2, q1 ++ q2, r)
 
+/-- tail of the `(Entry::Vacant, HandshakeInit)` arm: `parse_handshake_anon` only decrypts the claimed key; a
+handshake that the new tunnel rejects leaves no tunnel state behind (fix 9197560), otherwise the entry is inserted -/
+def acceptNew (s : Server σ) (frm : Addr) (peer : Id) (tunn' : σ) (q : List Net) (r : TunnResult Net) (sd : SD) :
+    InOut σ Net SD :=
+  match r with
+  | .err e => ⟨s, q, .result (.err e), some peer⟩
+  | r => ⟨{ tunnels := s.tunnels.insert frm ⟨peer, tunn'⟩ }, q, incomingPacketResult r sd, some peer⟩
+
 /-- `SnapTunServer::handle_incoming_packet_with_session` -/
 def handleIncoming (w : Wg σ Pkt Net) (authz : Id → Option SD) (s : Server σ) (pkt : Pkt) (frm : Addr) :
     InOut σ Net SD :=
@@ -142,8 +154,7 @@ def handleIncoming (w : Wg σ Pkt Net) (authz : Id → Option SD) (s : Server σ
         | none => ⟨s, [], .result (.err .unexpectedPacket), some peer⟩
         | some sd =>
           let (tunn', q, r) := drain w (w.new peer frm) pkt
-          -- the entry is inserted whatever `r` is
-          ⟨{ tunnels := s.tunnels.insert frm ⟨peer, tunn'⟩ }, q, incomingPacketResult r sd, some peer⟩
+          acceptNew s frm peer tunn' q r sd
       | some (.error e) => ⟨s, [], .result (.err e), none⟩
       | none => ⟨s, [], .result (.err .invalidPacket), none⟩
 
